@@ -260,7 +260,7 @@ STANDARD = {
 
 
 # recorded sessions (code -> spec, harness/sessiontrace.py): operation weights per property, (traces, steps) quick / thorough
-QUIET = dict(cli=0, redeliver=0, damage=0, restore=0, delete=0, tear=0, cachedir=0)
+QUIET = dict(cli=0, redeliver=0, damage=0, restore=0, delete=0, tear=0, cachedir=0, purge=0)
 PROFILES = {
     "C01": (dict(QUIET, open=25, load=40, mutate=6, copy=8, drop=3, redeliver=7), (0, 1)),
     "C02": (dict(QUIET, open=18, load=45, mutate=16, copy=3, drop=2, redeliver=5), (0, 1)),
